@@ -1164,3 +1164,16 @@ def h_nd_len_of(vf, node, fn, args):
     a = tt(vf, args[1])
     axn = a[2][0][2][0] if T.is_app(a, 'adt:ndarray::Axis') and a[2] and T.is_app(a[2][0], 'f:0') else None
     return index_term(T.app('shape', x), axn) if axn is not None and T.is_num(axn) else T.app('len_of', x, a)
+
+
+@reg('ITER', 'std::iter::Iterator::take_while')
+def h_take_while(vf, node, fn, args):
+    """prefix of the sequence up to (excluding) the first element that fails the predicate: same elements, same trip count
+    bound, plus an exit test in front of every iteration"""
+    s = vf.as_seq(args[0], node)
+    c = vf.deref(args[1])
+    if not isinstance(c, Clos) or getattr(s, 'stop', None) is not None:
+        return vf.default_call('std::iter::Iterator::take_while', args, node, fn)
+    out = Seq(s.n, s.elem, 'take_while(%s)' % s.desc, src=s.src)
+    out.stop = lambda elem: tt(vf, vf.apply_closure(c, [elem]))
+    return out
